@@ -209,6 +209,34 @@ def check_case(run, case, detail, history, g, scratch):
         run.violation(f"trace_not_reproducible_reused_pipeline:{diff[0]}" + (":sweep_node" if sweep else ""),
                       f"run 1 and run 2 of one reused Pipeline differ after normalisation at {diff[1]}",
                       dict(witness, difference=diff))
+    # ---- "regardless of what ran before": the same payload B on a fresh Pipeline vs on a Pipeline object that
+    # first processed a DIFFERENT payload A (same configuration; B adds context keys named like defaulted parameters)
+    extra = {k: 1.25 for k in ("factor", "addend", "scale", "k", "b", "tag", "offset", "start", "seed") if k not in ctx_spec}
+    ctx_b = dict(ctx_spec, **extra)
+
+    def run_b(pipeline):
+        tr = tc.traced_run(nodes, data, materialise(ctx_b), detail=detail, mode="file", scratch=scratch, pipeline=pipeline)
+        recs = [tc.normalise(r) for r in tr.records]
+        shutil.rmtree(tr.tdir, ignore_errors=True)
+        return tr.real, recs
+
+    try:
+        fresh_b_real, fresh_b = run_b(None)
+        pipe2 = account.build_pipeline(nodes)
+        real(detail, pipeline=pipe2)                      # payload A first
+        reused_b_real, reused_b = run_b(pipe2)            # then payload B on the same object
+        run.count("other_payload_history_pairs")
+        if not same(outcome(fresh_b_real), outcome(reused_b_real)):
+            run.violation("outcome_depends_on_earlier_payload_on_same_pipeline",
+                          f"payload B: fresh Pipeline {outcome(fresh_b_real)[:2]} vs Pipeline that processed payload A before {outcome(reused_b_real)[:2]}",
+                          dict(witness, ctx_b=repr(sorted(extra))))
+        elif fresh_b != reused_b:
+            diff = first_diff(fresh_b, reused_b)
+            run.violation(f"trace_depends_on_earlier_payload_on_same_pipeline:{diff[0]}",
+                          f"trace of payload B differs between a fresh Pipeline and one that processed payload A before, at {diff[1]}",
+                          dict(witness, extra_context_keys=sorted(extra), difference=diff))
+    except Exception as exc:  # pragma: no cover - harness guard
+        run.count(f"other_payload_history_skipped_{type(exc).__name__}")
     if na and n1 and na != n1:
         diff = first_diff(n1, na)
         run.violation(f"trace_differs_fresh_vs_reused_pipeline:{diff[0]}", f"fresh Pipeline vs first run of a reused Pipeline differ at {diff[1]}",
